@@ -579,7 +579,7 @@ pub fn c18_sweep(tier: Tier) -> (Acc, Value) {
         Tier::Quick => 6,
         Tier::Thorough => 8,
     };
-    let alphabet = ["a", "B", "/", ":", ".", "@", "é"];
+    let alphabet = ["a", "B", "/", ":", ".", "@", "é", "v", "2"];
     let mut total = for_all_short(&alphabet, n, |s, acc| {
         for ty in R::KNOWN_TYPES {
             c18_forward(ty, s, acc);
